@@ -319,6 +319,9 @@ def rand_value(rng):
     if c < .7:
         return rng.random() < .5
     if c < .8:
+        if rng.random() < .25:
+            # doubles that take 16 or 17 digits to write down are numbers like any other
+            return rng.choice([0.1 + 0.2, 1 / 3, 1.0000000000000002, 2 / 3, 1e16 / 3, -0.7000000000000001, 123456.78901234567])
         return rng.randrange(0, 10 ** 6) / 100.0
     if c < .9:
         d = V.rand_datetime(rng)
